@@ -1680,6 +1680,22 @@ class Interp:
                 n = len(t.elts)
                 self.guard([("ValueError", z3.Length(seq) != n)])
                 items = [Z(seq[i]) for i in range(n)]
+            stars = [i for i, e in enumerate(t.elts) if isinstance(e, ast.Starred)]
+            if stars:
+                # a, *rest, z = items   over a sequence of concretely known length: the starred name takes a new list
+                if len(stars) > 1 or self.try_iter_concrete(v) is None or isinstance(v, Z):
+                    raise Unsupported("starred assignment over a sequence of unknown length")
+                k, n_after = stars[0], len(t.elts) - stars[0] - 1
+                if len(items) < len(t.elts) - 1:
+                    raise PyRaise("ValueError", msg="unpack")
+                from .sym import LList
+                mid = LList(list(items[k:len(items) - n_after]), fresh=True)
+                for e, x in zip(t.elts[:k], items[:k]):
+                    self.assign_target(e, x, fr)
+                self.assign_target(t.elts[k].value, mid, fr)
+                for e, x in zip(t.elts[k + 1:], items[len(items) - n_after:] if n_after else []):
+                    self.assign_target(e, x, fr)
+                return
             if len(items) != len(t.elts):
                 raise PyRaise("ValueError", msg="unpack")
             for e, x in zip(t.elts, items):
